@@ -25,7 +25,7 @@
 (***************************************************************************)
 EXTENDS Naturals, Sequences, FiniteSets, TLC
 
-Kinds == {"schema", "parameter", "header", "response", "requestBody", "pathItem"}
+Kinds == {"schema", "parameter", "header", "response", "requestBody", "pathItem", "example", "securityScheme"}
 Shapes == {"chain", "cross", "cycle", "deep", "diamond"}
 
 \* outcome of parsing the referencing document:
